@@ -51,10 +51,13 @@ def tasks(tier, seed):
     for c in offs[: (60 if quick else 400)]:
         for d in range(1, min(len(c), 5)):
             T.append(('stencil', d, None, None, list(c)))
+            if len(c) >= 3 and d == 1:  # the same offsets handed over in a non-sorted order (rotation = one long cycle; and a random order)
+                T.append(('stencil', d, None, None, list(c[1:] + c[:1])))
+                T.append(('stencil', min(2, len(c) - 1), None, None, r.sample(list(c), len(c))))
     for d, order, st in ([(1, 2, 'center'), (2, 2, 'center'), (1, 1, 'upwind'), (1, 3, 'upwind'), (2, 4, 'center'), (1, 2, 'forward'), (3, 2, 'center'), (1, 4, 'center')] if quick else
                          [(d_, o_, s_) for d_ in (1, 2, 3, 4) for o_ in (1, 2, 3, 4, 6) for s_ in ('center', 'forward', 'backward', 'upwind') if not (s_ == 'center' and o_ % 2 == 1 and d_ % 2 == 0)]):
         T.append(('periodic', d, order, st, None))
-    for steps in ([-3, -1, 1, 3], [-2, 0, 1], [-1, 0, 2, 3], [-4, -2, 0, 2, 4], [0, 2, 3], [-3, -2, 1]):
+    for steps in ([-3, -1, 1, 3], [-2, 0, 1], [-1, 0, 2, 3], [-4, -2, 0, 2, 4], [0, 2, 3], [-3, -2, 1], [0, 1, -1], [1, 3, -3, -1], [2, -1, 0, 1]):
         T.append(('periodic', 1, None, None, steps))
         if len(steps) > 2:
             T.append(('periodic', 2, None, None, steps))
@@ -65,7 +68,7 @@ def tasks(tier, seed):
     # one-sided / biased / user-supplied stencils together with boundaries (Dirichlet data, default treatment)
     for d, order, st in ((1, 1, 'upwind'), (1, 2, 'forward'), (1, 2, 'backward'), (1, 3, 'upwind'), (2, 2, 'forward'), (2, 1, 'backward'), (1, 4, 'upwind')):
         T.append(('bc', d, order, 'dirichlet', False, st, None))
-    for d, steps in ((1, [-2, 0, 1]), (1, [-1, 0, 2, 3]), (2, [-1, 0, 1, 2]), (1, [-3, -1, 0, 1])):
+    for d, steps in ((1, [-2, 0, 1]), (1, [-1, 0, 2, 3]), (2, [-1, 0, 1, 2]), (1, [-3, -1, 0, 1]), (1, [0, 1, -1]), (1, [1, 2, -1, 0])):
         T.append(('bc', d, len(steps) - d, 'dirichlet', False, None, steps))
     T.append(('kron', 2))
     T.append(('kron', 3))
